@@ -165,7 +165,7 @@ def run_every_operation(out, rnd):
         ip = world.loopback_ip(12); dev = Dev(ip, 9957 if cls is SwitcherType1Api else 10000); await dev.listen(True)
         api = cls(ip, "ab1c2d", "18"); log = []; c = world.rand_op_case(rnd, kind, "valid", True)
         try:
-            await api.connect(); dev.open = 1; dev.eofs = 0
+            await api.connect(); await settle()          # (the device object is new: it counts this one connection itself)
             if hangup:
                 dev.policy = lambda n, d: b""            # the device ends its stream at the first thing it hears
                 try: await asyncio.wait_for(api.get_state() if cls is SwitcherType1Api else api.get_shutter_state(), PATIENCE)
